@@ -14,7 +14,7 @@ import (
 func init() {
 	register(&Prop{
 		ID:         "C19",
-		Decided:    "(1) Stream.dataChan is written only under dataChanMux.Lock and read under at least RLock; (2) on the expand strategy every send on the input buffer happens while the data-channel lock is held (a swap cannot strand a row): sends on a cached channel reference occur only in strategies that never expand, and expandDataChannel is called only by the expand strategy; (3) migration: the old channel is drained under the write lock, every received row is offered to the new channel, and the swap store happens under that lock after the drain; (4) in each strategy's ProcessData every path ends after exactly one of {row enqueued, input_dropped_count incremented, stop observed} and never enqueues twice; the block strategy without timeout has no drop path; (5) growth is attempted only when oldCap < MaxBufferSize and the new capacity never exceeds MaxBufferSize (when set); (6) single consumer (shared with C05) and input_count incremented before the strategy runs. Also: the migration's drain loop is left only after an attempt to receive from the old channel (empty, or the timeout arm) — never on a test made before trying, such as a row count sampled before the write lock (flow/migration#drain-until-empty). Also: after every receive from the input channel that delivered a row, processItem runs before the processing goroutine receives again or returns; rows collected into a batch are handed to processItem by a loop that cannot be left early (flow/received-row-processed).",
+		Decided:    "(1) Stream.dataChan is written only under dataChanMux.Lock and read under at least RLock; (2) on the expand strategy every send on the input buffer happens while the data-channel lock is held (a swap cannot strand a row): sends on a cached channel reference occur only in strategies that never expand, and expandDataChannel is called only by the expand strategy; (3) migration: the old channel is drained under the write lock, every received row is offered to the new channel, and the swap store happens under that lock after the drain; (4) in each strategy's ProcessData every path ends after exactly one of {row enqueued, input_dropped_count incremented, stop observed} and never enqueues twice; the block strategy without timeout has no drop path; (5) growth is attempted only when oldCap < MaxBufferSize and the new capacity never exceeds MaxBufferSize (when set); (6) single consumer (shared with C05) and input_count incremented before the strategy runs. Also: the migration's drain loop is left only after an attempt to receive from the old channel (empty, or the timeout arm), or because the new, still private channel is full (`k < cap(new)` false, k counting the rows sent into it) — never on a test made before trying that concerns the source, such as a row count sampled before the write lock (flow/migration#drain-until-empty). Also: after every receive from the input channel that delivered a row, processItem runs before the processing goroutine receives again or returns; rows collected into a batch are handed to processItem by a loop that cannot be left early (flow/received-row-processed).",
 		NotDecided: "conservation as a count under schedules, that the send into the private larger channel cannot lose to the 5 s migration timer (the path exists in the CFG and is tolerated as 'send attempted'), consumer speed.",
 		Run:        runC19,
 	})
